@@ -58,31 +58,39 @@ func VerifH_bgzf_writer_faults() {
 	vrt.Reach("end")
 }
 
-// verifFaultySource fails a chosen Read call of the underlying reader.
+// verifFaultySource serves the stream up to a chosen byte position and fails from
+// there on (failPos < 0: never). It offers ReadByte when byteSrc is set, so that the
+// reader uses it directly instead of wrapping it in a bufio.Reader.
 type verifFaultySource struct {
-	data   []byte
-	pos    int
-	reads  int
-	failAt int
+	data    []byte
+	pos     int
+	failPos int
 }
 
 var verifErrSource = io.ErrNoProgress
 
 func (s *verifFaultySource) Read(p []byte) (int, error) {
-	i := s.reads
-	s.reads++
-	if s.failAt >= 0 && i >= s.failAt {
-		return 0, verifErrSource
+	end := len(s.data)
+	if s.failPos >= 0 && s.failPos < end {
+		end = s.failPos
 	}
-	if s.pos >= len(s.data) {
+	if s.pos >= end {
+		if s.failPos >= 0 && s.pos >= s.failPos {
+			return 0, verifErrSource
+		}
 		return 0, io.EOF
 	}
-	n := copy(p, s.data[s.pos:])
+	if len(p) == 0 {
+		return 0, nil
+	}
+	n := copy(p, s.data[s.pos:end])
 	s.pos += n
 	return n, nil
 }
 
-func (s *verifFaultySource) ReadByte() (byte, error) {
+type verifFaultyByteSource struct{ verifFaultySource }
+
+func (s *verifFaultyByteSource) ReadByte() (byte, error) {
 	var b [1]byte
 	n, err := s.Read(b[:])
 	if n == 1 {
@@ -98,16 +106,31 @@ func VerifH_bgzf_reader_faults() {
 	rd := vrt.Param("rd", 1)
 	var sinkb bytes.Buffer
 	w := NewWriter(&sinkb, 1)
-	n1 := vrt.Choice("len1", vrt.Param("MAXW", BlockSize+2)+1)
+	n1 := []int{1, BlockSize, BlockSize + 1, 2}[vrt.Choice("len1", vrt.Param("RLENS1", 3))]
 	d1 := vrt.Bytes("payload", n1)
 	w.Write(d1)
 	w.Flush()
-	n2 := vrt.Choice("len2", 3)
+	n2 := vrt.Choice("len2", 2)
 	d2 := vrt.Bytes("payload2", n2)
 	w.Write(d2)
 	vrt.Assert(w.Close() == nil, "writer-close")
 	data := append(append([]byte(nil), d1...), d2...)
-	src := &verifFaultySource{data: sinkb.Bytes(), failAt: vrt.Choice("failAt", vrt.Param("FAILS", 4))}
+	// the failure position is chosen as (member, offset in member) so that it transfers to
+	// the real encoder's member sizes on native replay
+	stream := sinkb.Bytes()
+	ms, _ := verifWalk(stream)
+	bases := []int{0}
+	for _, m := range ms {
+		bases = append(bases, bases[len(bases)-1]+len(m.raw))
+	}
+	mi := vrt.Choice("failmember", len(bases)-1)
+	o := []int{0, 1, 12, 18, 20, 27}[vrt.Choice("failoffset", 6)]
+	vrt.Assume(bases[mi]+o < bases[mi+1])
+	fs := verifFaultySource{data: stream, failPos: bases[mi] + o}
+	var src io.Reader = &fs
+	if vrt.Choice("bytesource", 2) == 1 {
+		src = &verifFaultyByteSource{fs}
+	}
 	r, err := NewReader(src, rd)
 	if err != nil {
 		vrt.Assert(err != io.EOF || len(sinkb.Bytes()) == 0, "open-error-not-clean-EOF")
@@ -117,8 +140,9 @@ func VerifH_bgzf_reader_faults() {
 	}
 	var got []byte
 	var rerr error
+	buflen := 1 + vrt.Choice("buflen", 2)*BlockSize
 	for calls := 0; calls < len(data)+3; calls++ {
-		p := make([]byte, 1+vrt.Choice("buflen", 2)*BlockSize)
+		p := make([]byte, buflen)
 		n, err := r.Read(p)
 		got = append(got, p[:n]...)
 		if err != nil {
